@@ -93,6 +93,9 @@ def tasks(tier, pid):
                 t.append(('recipe_method', m, v, False))
         t.append(('syntactic',))
     if pid == 'C03':
+        # dispensing from / collecting into a container: every aliquot is a Container.transfer on the CURRENT stock (its
+        # refusal and its non-negative results are then the plate operation's: `linear`)
+        t += [('plate_transfer',) + c for c in PO.transfer_cases(tier) if c[0] in ('c2p', 'p2c')]
         # a refusal must survive the plate level: every addressed well of a plate fill_to goes through Container.fill_to
         # (a well skipped by the plate code is a well whose infeasible request is not refused)
         t += [('plate_unary',) + c for c in PO.unary_cases(tier) if c[0] == 'fill_to']
